@@ -119,6 +119,17 @@ CHECKS = {
             "Depth 2 (quick) / 3 (thorough) over the full alphabet, deeper over a reduced one, plus column-wrap scripts; only the "
             "documented windows count as LCD accesses.",
             "DESIGN.md section 4, C15"),
+    "C16": ("fault_enumeration",
+            "crash-point style enumeration: every distinct reachable machine state of a bounded explicit-state search is a "
+            "snapshot point; save -> fresh machine -> load with the real snapshot code, then every continuation up to length K "
+            "is run on the original and on the restored machine and compared step by step; cross-loading between the two formats",
+            "All reachable states of C12's configurations up to the stated depth are snapshot points (running, halted, powered off, "
+            "inside handlers, pending/masked requests, key held, timer about to fire); for each, all continuations over "
+            "{step, key press/release, ON} up to length 1-3 are executed on both machines and all program-visible observables "
+            "(registers, internal memory, RAM, power, FIFO, key input, timer distances, delivery counts, LCD) must agree.",
+            "Rust bundles are written/read through the verification zip shim (real ZIP container); bookkeeping flags are not "
+            "compared directly, only their observable consequences; wall-clock metadata is ignored.",
+            "DESIGN.md section 4, C16"),
     "C17": ("exploration",
             "complete comparison of a finite configuration space: all 256 opcode rows and every duplicated constant, "
             "private Rust tables observed behaviourally through LlamaExecutor::execute",
